@@ -50,6 +50,7 @@ class Ctx:
         self.notes = []
         self.samples = []
         self.binding = []
+        self.model_violations = []
         self.quick = tier == 'quick'
         self.known = load_known()
 
@@ -72,10 +73,20 @@ def load_known():
 # ---------------------------------------------------------------------------------------------
 # build
 _built = set()
+import threading
+_build_lock = threading.Lock()
 
 
 def build(drivers):
-    """(re)build xvrt and the named drivers from REPO's current tree"""
+    """(re)build xvrt and the named drivers from REPO's current tree (once per process and driver)"""
+    with _build_lock:
+        drivers = [d for d in drivers if d not in _built]
+        if not drivers:
+            return
+        _build(drivers)
+
+
+def _build(drivers):
     targets = ' '.join(os.path.join(BUILD, d) for d in drivers)
     rc, out = sh('make -s -C %s/harness -j16 REPO=%s B=%s %s' % (VERIF, REPO, BUILD, targets), tmo=900)
     if rc != 0:
@@ -200,6 +211,10 @@ def tlc_mc(ctx, name, module, consts, invariants=(), properties=(), view=None, c
     ctx.mc.append(res)
     log('  M %-28s %-9s gen=%d distinct=%d %.1fs %s' % (name, res['status'], res['generated'], res['distinct'], wall,
                                                       ('UNCOVERED ' + ','.join(res['uncovered'])) if res['uncovered'] else ''))
+    if expect == 'ok' and res['status'] in ('violation', 'assert'):
+        log('MODEL-VIOLATION %s/%s: %s violated in the model instantiated from the current tree (reported as VIOLATION only '
+            'when a real execution shows it)' % (module, name, res.get('violated', 'assertion')))
+        ctx.model_violations.append({'run': name, 'module': module, 'violated': res.get('violated', 'assertion'), 'cex_head': res['cex'][:3000]})
     if res['status'] == 'error':
         log(out[-3000:])
         raise Infra('TLC failed on %s/%s' % (module, name))
@@ -471,7 +486,7 @@ def finish(ctx, level_rule, assumptions, extra_cov=None):
                              | {'rejected': len(r['rejected']), 'executions_run': r.get('executions_run', 0),
                                 'programs': r.get('programs', 0), 'truncated_programs': r.get('truncated', 0)} for r in ctx.tv],
         'toggles_exercised': [r['name'] for r in ctx.mc if r['expect'] == 'violation'],
-        'binding': ctx.binding, 'notes': ctx.notes, 'known_findings_hit': ctx.known_hits,
+        'binding': ctx.binding, 'model_violations_not_transferred': ctx.model_violations, 'notes': ctx.notes, 'known_findings_hit': ctx.known_hits,
     }
     if extra_cov:
         cov.update(extra_cov)
